@@ -444,6 +444,246 @@ func vfC15Run(e *vfEnv, r *vfResult, idx int) { //nolint:cyclop,maintidx
 	}
 }
 
+// vfC15LiveMuxGoroutines lists mux goroutines that have certainly not ended: still inside handleConn, the accept loop,
+// or the per-connection close watcher (a goroutine past those frames is running its deferred wg.Done and is not counted).
+func vfC15LiveMuxGoroutines() []string {
+	var out []string
+	for _, g := range strings.Split(vfStacks(), "\n\n") {
+		if strings.Contains(g, "(*TCPMuxDefault).handleConn(") || strings.Contains(g, "(*TCPMuxDefault).start(") ||
+			strings.Contains(g, "(*TCPMuxDefault).removeConnByUfragAndLocalHost(") || strings.Contains(g, "(*tcpPacketConn).AddConn.func") {
+			out = append(out, g)
+		}
+	}
+
+	return out
+}
+
+// vfC15CloseOverlap: EVERY Close call that returns must return after all the mux's goroutines have ended - also a
+// Close that overlaps or follows another one.  Silent clients keep handleConn goroutines parked on the first-frame
+// read (Close does not interrupt those; they end at FirstStunBindTimeout).
+func vfC15CloseOverlap(e *vfEnv, r *vfResult, idx int) {
+	rng := e.rng(idx, "tcpmux-closeoverlap")
+	ln, err := net.Listen("tcp", "127.0.0.1:0")
+	if err != nil {
+		r.inconclusive(1)
+
+		return
+	}
+	firstTO := time.Duration(150+rng.IntN(250)) * time.Millisecond
+	mux := NewTCPMuxDefault(TCPMuxParams{Listener: ln, Logger: vfQuietLogger().NewLogger("ice"), ReadBufferSize: 16,
+		FirstStunBindTimeout: firstTO, AliveDurationForConnFromStun: 200 * time.Millisecond})
+	pc, err := mux.GetConnByUfrag("ufo", false, net.IPv4(127, 0, 0, 1))
+	if err != nil {
+		r.inconclusive(1)
+		_ = mux.Close()
+
+		return
+	}
+	nSilent := 1 + rng.IntN(3)
+	var clients []net.Conn
+	for i := 0; i < nSilent+1; i++ {
+		c, err := net.DialTimeout("tcp", ln.Addr().String(), 2*time.Second)
+		if err != nil {
+			continue
+		}
+		clients = append(clients, c)
+		if i == nSilent { // one attached client
+			user := "ufo:remote"
+			_, _ = c.Write(vfFrame(vfStunWithUser(rng, &user)))
+		} else if rng.IntN(2) == 0 {
+			_, _ = c.Write([]byte{0})
+		}
+	}
+	defer func() {
+		for _, c := range clients {
+			_ = c.Close()
+		}
+		_ = pc.Close()
+	}()
+	// wait until the silent clients are parked in handleConn (bounded; otherwise nothing to observe)
+	parked := 0
+	for dl := time.Now().Add(2 * time.Second); time.Now().Before(dl); time.Sleep(200 * time.Microsecond) {
+		parked = 0
+		for _, g := range vfC15LiveMuxGoroutines() {
+			if strings.Contains(g, "(*TCPMuxDefault).handleConn(") {
+				parked++
+			}
+		}
+		if parked >= nSilent {
+			break
+		}
+	}
+	nClose := 2 + rng.IntN(2)
+	type ret struct {
+		k     int
+		alive []string
+	}
+	rets := make(chan ret, nClose)
+	sequentialSecond := rng.IntN(4) == 0
+	for k := 0; k < nClose; k++ {
+		stagger := time.Duration(rng.IntN(3000)) * time.Microsecond
+		if k == 0 {
+			stagger = 0
+		}
+		go func() {
+			time.Sleep(stagger)
+			_ = mux.Close()
+			rets <- ret{k, vfC15LiveMuxGoroutines()}
+		}()
+		if sequentialSecond && k == 0 {
+			x := <-rets
+			rets <- x
+		}
+	}
+	r.eval(1)
+	for k := 0; k < nClose; k++ {
+		select {
+		case x := <-rets:
+			if len(x.alive) > 0 {
+				r.violation("tcpmux-close-returned-before-goroutines-ended", fmt.Sprintf("history %d: Close call #%d of %d (overlapping: %v) returned while %d mux goroutine(s) were still running (%d silent client(s) parked in handleConn)", idx, x.k, nClose, !sequentialSecond, len(x.alive), parked),
+					map[string]any{"idx": idx, "goroutines": x.alive, "closes": nClose, "silent_clients": nSilent})
+
+				return
+			}
+		case <-time.After(30 * time.Second):
+			r.violation("tcpmux-close-stuck", fmt.Sprintf("history %d: one of %d overlapping Close calls did not return", idx, nClose), map[string]any{"idx": idx, "stacks": vfStacks()})
+
+			return
+		}
+	}
+	r.count("c15_overlapping_close_calls", int64(nClose))
+	r.distinct(fmt.Sprintf("tcpmux-closeoverlap/closes%d/silent%d/parked%d/seq=%v", nClose, nSilent, parked, sequentialSecond))
+}
+
+// vfC15Provisional: the life of a connection created for a ufrag nobody has registered yet.  Claimed by its owner
+// (GetConnByUfrag) it must stop expiring - whatever connects to it afterwards - and keep delivering; unclaimed it must
+// expire although a hostile client keeps reconnecting to it.
+func vfC15Provisional(e *vfEnv, r *vfResult, idx int) { //nolint:cyclop
+	rng := e.rng(idx, "tcpmux-provisional")
+	ln, err := net.Listen("tcp", "127.0.0.1:0")
+	if err != nil {
+		r.inconclusive(1)
+
+		return
+	}
+	alive := 100 * time.Millisecond
+	mux := NewTCPMuxDefault(TCPMuxParams{Listener: ln, Logger: vfQuietLogger().NewLogger("ice"), ReadBufferSize: 16,
+		FirstStunBindTimeout: 2 * time.Second, AliveDurationForConnFromStun: alive})
+	defer mux.Close() //nolint:errcheck
+	addr := ln.Addr().String()
+	user := "prov:remote"
+	dial := func() net.Conn {
+		c, err := net.DialTimeout("tcp", addr, 2*time.Second)
+		if err != nil {
+			return nil
+		}
+		_, _ = c.Write(vfFrame(vfStunWithUser(rng, &user)))
+
+		return c
+	}
+	first := dial()
+	if first == nil {
+		r.inconclusive(1)
+
+		return
+	}
+	defer first.Close() //nolint:errcheck
+	claim := rng.IntN(3) != 0
+	r.eval(1)
+	if !claim {
+		// never claimed; a hostile client reconnects every 0.6 x alive for 10 x alive
+		hostile := rng.IntN(2) == 0
+		var extra []net.Conn
+		for k := 0; k < 17; k++ {
+			time.Sleep(alive * 6 / 10)
+			if hostile {
+				if c := dial(); c != nil {
+					extra = append(extra, c)
+				}
+			}
+		}
+		_ = first.SetReadDeadline(time.Now().Add(5 * alive))
+		_, err := first.Read(make([]byte, 16))
+		var ne net.Error
+		if err == nil || (errors.As(err, &ne) && ne.Timeout()) {
+			r.violation("tcpmux-provisional-never-expired", fmt.Sprintf("history %d: a connection to a ufrag nobody registered was still open 15x the alive duration after it was made (a client reconnecting to the same ufrag every 0.6x alive: %v)", idx, hostile),
+				map[string]any{"idx": idx, "reconnecting_client": hostile})
+		}
+		for _, c := range extra {
+			_ = c.Close()
+		}
+		r.distinct(fmt.Sprintf("tcpmux-provisional/unclaimed/hostile=%v", hostile))
+
+		return
+	}
+	time.Sleep(time.Duration(rng.IntN(30)) * time.Millisecond)
+	nBefore := rng.IntN(2)
+	clients := []net.Conn{first}
+	for k := 0; k < nBefore; k++ {
+		if c := dial(); c != nil {
+			clients = append(clients, c)
+		}
+	}
+	time.Sleep(time.Duration(rng.IntN(10)) * time.Millisecond)
+	pc, err := mux.GetConnByUfrag("prov", false, net.IPv4(127, 0, 0, 1))
+	if err != nil {
+		r.inconclusive(1)
+
+		return
+	}
+	defer pc.Close() //nolint:errcheck
+	var mu sync.Mutex
+	got := map[string][]string{}
+	go func() {
+		buf := make([]byte, 2000)
+		errs := 0
+		for {
+			n, a, err := pc.ReadFrom(buf)
+			if err != nil {
+				errs++
+				if errors.Is(err, io.ErrClosedPipe) || errs > 10000 {
+					return
+				}
+
+				continue
+			}
+			if !stun.IsMessage(buf[:n]) {
+				mu.Lock()
+				got[a.String()] = append(got[a.String()], string(buf[:n]))
+				mu.Unlock()
+				_, _ = pc.WriteTo([]byte("re:"+string(buf[:n])), a)
+			}
+		}
+	}()
+	nAfter := rng.IntN(3)
+	for k := 0; k < nAfter; k++ {
+		time.Sleep(time.Duration(rng.IntN(20)) * time.Millisecond)
+		if c := dial(); c != nil {
+			clients = append(clients, c)
+		}
+	}
+	defer func() {
+		for _, c := range clients[1:] {
+			_ = c.Close()
+		}
+	}()
+	time.Sleep(3 * alive)
+	// long after the alive duration every attached client still exchanges packets with the owner
+	for ci, c := range clients {
+		p := fmt.Sprintf("\x90late-%d-%d", idx, ci)
+		_, werr := c.Write(vfFrame([]byte(p)))
+		b, rerr := vfReadFrame(c, 3*time.Second)
+		if werr != nil || rerr != nil || string(b) != "re:"+p {
+			r.violation("tcpmux-claimed-connection-expired", fmt.Sprintf("history %d: the owner claimed the provisional connection with GetConnByUfrag; %d client(s) connected before and %d after the claim; 3x the alive duration later client %d gets no reply on its connection (write: %v, read: %v)", idx, 1+nBefore, nAfter, ci, werr, rerr),
+				map[string]any{"idx": idx, "clients_before_claim": 1 + nBefore, "clients_after_claim": nAfter, "client": ci})
+
+			return
+		}
+	}
+	r.count("c15_claimed_clients_checked", int64(len(clients)))
+	r.distinct(fmt.Sprintf("tcpmux-provisional/claimed/before%d/after%d", 1+nBefore, nAfter))
+}
+
 func rng2(e *vfEnv, idx int) *rand.Rand { return e.rng(idx, "tcpmux-extra") }
 
 func kindSet(k []string) string {
@@ -466,7 +706,14 @@ func TestVerifC15(t *testing.T) {
 		}
 		n := e.n(160, 5000)
 		for i := 0; i < n; i++ {
-			vfC15Run(e, r, i)
+			switch {
+			case i%8 == 3:
+				vfC15CloseOverlap(e, r, i)
+			case i%8 == 6:
+				vfC15Provisional(e, r, i)
+			default:
+				vfC15Run(e, r, i)
+			}
 		}
 	})
 }
